@@ -2,6 +2,7 @@
 own `signature` accepts, `call` reaches no panic site and returns a value of the promised type.  Property C08 (kernels)."""
 import re
 import z3
+import harness
 from values import Int, Bool, UNIT, Agg, Ref, Opaque, Bytes, SeqV, Future, BV, simp, concrete, fresh_name
 from engine import State, Unsupported
 import contracts as C
@@ -579,7 +580,7 @@ def spec_accessors(ck):
             continue
         for nm in names:
             ex = ck.engine(loop_bound=4)
-            ex.benign_havoc = re.compile(r'.')
+            ex.benign_havoc = harness.IRRELEVANT
             ex.havoc_result_ok = True
             ex.overrides.append((re.compile(r' as Into<(?:milu::script::)?Value>>::into$'), into_value))
             st = State()
